@@ -42,8 +42,14 @@ def neg(a):
 
 
 def ite(c, a, b):
+    """a and b may be thunks: natively only the selected branch is evaluated (guarded index expressions)"""
     if isinstance(c, (bool,)):
-        return a if c else b
+        r = a if c else b
+        return r() if callable(r) else r
+    if callable(a):
+        a = a()
+    if callable(b):
+        b = b()
     return sym.ite(c, a, b)
 
 
